@@ -30,7 +30,17 @@ type ByName []HashPair
 
 func (a ByName) Len() int           { return len(a) }
 func (a ByName) Swap(i, j int)      { a[i], a[j] = a[j], a[i] }
-func (a ByName) Less(i, j int) bool { return a[i].Key.Inspect() < a[j].Key.Inspect() }
+func (a ByName) Less(i, j int) bool {
+	ki, kj := a[i].Key.Inspect(), a[j].Key.Inspect()
+	if ki != kj {
+		return ki < kj
+	}
+	// Keys of different types may print alike (1, 1.0 and "1" are three
+	// distinct keys).  Order those by type so that the order is total,
+	// otherwise it would depend upon map-iteration order and could change
+	// between two calls - which breaks printing and iteration.
+	return a[i].Key.Type() < a[j].Key.Type()
+}
 
 // Hash wrap map[HashKey]HashPair and implements Object interface.
 type Hash struct {
